@@ -1009,6 +1009,8 @@ package nutsdb
 //@   branch 7: iff[C01,C03] hasPrefix(string(n.Keys[i]), string(prefix))
 //@   at stored keys: assert[C01,C03] len(keys) > 0 ==> keys[len(keys) - 1] == n.Keys[i] && hasPrefix(string(n.Keys[i]), string(prefix)) && coff >= offsetNum
 //@   at stored pointers: assert[C01,C03] len(pointers) > 0 ==> pointers[len(pointers) - 1] == n.pointers[i]
+//@   at stored coff: assert[C03] coff > 0 ==> liveRec(ifaceval(n.pointers[i], Record))
+//@   at stored numFound: assert[C03] numFound > 0 ==> liveRec(ifaceval(n.pointers[i], Record))
 
 //@ func BPTree.PrefixSearchScan
 //@   requires t != nil
@@ -1032,3 +1034,37 @@ package nutsdb
 //@   at stored keys: assert[C01,C03] len(keys) > 0 ==> keys[len(keys) - 1] == n.Keys[i] && hasPrefix(string(n.Keys[i]), string(prefix)) && coff >= offsetNum &&
 //@        (exists r string :: concat(string(prefix), r) == string(n.Keys[i]) && reMatch(rgx, r))
 //@   at stored pointers: assert[C01,C03] len(pointers) > 0 ==> pointers[len(pointers) - 1] == n.pointers[i]
+
+//@ func Tx.prefixScanByHintBPTSparseIdx
+//@   assumed sparse-mode prefix scan (C02/C03 sparse part, not yet under contract)
+//@   modifies lastReadOff
+//@ func Tx.prefixSearchScanByHintBPTSparseIdx
+//@   assumed sparse-mode prefix+regexp scan (not yet under contract)
+//@   modifies lastReadOff
+//@ func Tx.getAllByHintBPTSparseIdx
+//@   assumed sparse-mode GetAll (not yet under contract)
+//@   modifies lastReadOff
+
+//@ func Tx.PrefixScan
+//@   requires txOK(tx) && (tx.db != nil ==> treesOK(tx.db))
+//@   ensures[C12,C20] tx.db == nil ==> err == ErrTxClosed
+//@   ensures[C03] err == nil && tx.db.opt.EntryIdxMode != HintBPTSparseIdxMode ==> len(es) > 0 && (limitNum > 0 ==> len(es) <= limitNum)
+//@   ensures[C03] err != nil && tx.db != nil && tx.db.opt.EntryIdxMode != HintBPTSparseIdxMode ==> es == nil
+//@   modifies[C03,C12] lastReadOff
+//@   safety[C20] panics
+//@ func Tx.PrefixSearchScan
+//@   requires txOK(tx) && (tx.db != nil ==> treesOK(tx.db))
+//@   ensures[C12,C20] tx.db == nil ==> err == ErrTxClosed
+//@   ensures[C03] err == nil && tx.db.opt.EntryIdxMode != HintBPTSparseIdxMode ==> len(es) > 0 && (limitNum > 0 ==> len(es) <= limitNum)
+//@   modifies[C03,C12] lastReadOff
+//@   safety[C20] panics
+//@ func Tx.GetAll
+//@   requires txOK(tx) && (tx.db != nil ==> treesOK(tx.db))
+//@   ensures[C12,C20] tx.db == nil ==> err == ErrTxClosed
+//@   ensures[C01] err == nil && tx.db.opt.EntryIdxMode != HintBPTSparseIdxMode ==> len(entries) > 0
+//@   modifies[C01,C12] lastReadOff
+//@   safety[C20] panics
+//@ func Tx.RangeScan
+//@   requires txOK(tx) && (tx.db != nil ==> treesOK(tx.db))
+//@   ensures[C12,C20] tx.db == nil ==> err == ErrTxClosed
+//@   modifies[C01,C12] everything
